@@ -53,10 +53,9 @@ an = {}
 for feature in ("", "uuid"):
     fx = F.Facts(F.extract(feature=feature)[0])
     for a in fx.all_adts("proguard"):
-        if not a.get("reachable_pub"):
-            an[a["path"]] = {"shape": F._adt_shape(a)}
+        an[a["path"]] = {"shape": F._adt_shape(a), "private": not a.get("reachable_pub"), "types": F._adt_type_shape(a)}
 json.dump(an, open(F.ADT_NAMES_FILE, "w"), indent=0, sort_keys=True)
-print("%d crate-private types" % len(an))
+print("%d types" % len(an))
 print("%d types with named fields" % len(fn))
 print("%d types with an ordered field list" % len(fo))
 if os.path.exists(F.PARAM_NAMES_FILE + ".old"):
